@@ -333,7 +333,7 @@ CHECKS = {
                 "shipped hg19/hg38 databases and generated opposite-strand databases with RefSeq-level evidence transported to both builds. "
                 "Oracle: the property itself - equal major/minor solutions, scores and added/lost variants in RefSeq terms at stage level, and "
                 "equal full-pipeline results for alignments expressed against each build (reads mirrored through the coordinate maps).",
-        "text_more": "Oracle additions: region of every RefSeq base equal in both builds (generated databases), VCF pairs with REF/ALT exchanged in one build, homozygous insertion alleles through the alignment pipeline. ",
+        "text_more": "Spec level (Props/C13Spec), no ILP involved: if the two builds' inputs of the major stage correspond (MajorCorr: same candidate alleles up to a relabelling of their core variants - in any order -, observed variants and sites relabelled in any order, 'carries' / 'sits at this site' / 'is an insertion' preserved, observed copy numbers and gene copies at a site equal) then EVERY multiset of alleles has the same admissibility and the same documented score in both builds (spec_major_build_independent), so by C02's major_optimal_score_is_least_documented both builds have the same optimal multisets with the same scores (major_optimum_build_independent); the correspondence is decided by Lean on the two real stage inputs (majorCorrB_sound; tie family major_spec_correspondence: where it holds the reported major solutions must be equal). Oracle additions: region of every RefSeq base equal in both builds (generated databases), VCF pairs with REF/ALT exchanged in one build, homozygous insertion alleles through the alignment pipeline. ",
         "design_ref": "DESIGN.md section 10.2-10.3 (as built), section 4 (C13) (plan)",
         "note": "PARTIAL: the equivariance premise (models are renamings) is validated per instance (translation validation), not proved for the "
                 "builders in general; exact score equality of the minor stage holds up to the order-dependent tie-breaker. Evidence transport "
